@@ -1,6 +1,7 @@
 """C07 — Extended keys round-trip through serialisation for all fields and 12 versions."""
 from .common import *  # noqa: F401,F403
 from . import common
+import hashlib
 import impl
 import ecdsa
 
@@ -230,6 +231,23 @@ def _cases_core(rng, tier):
             yield "xk_parse %s %s io %s" % (cls, tn, hx(pl)), "payload-reads-as-text-" + label
             spec = "%s:%s:%s:%d:%d:%s:%s" % (cls, hx(key33[1:] if prv else key33), hx(chain), depth, idx, tn, hx(fp))
             yield "xk_ser %s - %s %d" % (spec, "prv" if prv else "pub", ALL[name]), "payload-reads-as-text-ser-" + label
+    # private payloads that are themselves a Base58Check FRAME: the last four bytes of the scalar equal the double
+    # SHA-256 checksum of the 74 bytes in front of them (the scalar's low 32 bits are free) — and the same with the
+    # SHA-256 / CRC-like look of other framings (last 4 = first 4 of sha256).  Bytes, text and stream forms must agree.
+    for name in ([n_ for n_ in ALL if n_.endswith("prv")] if tier == "thorough" else ["xprv", "vprv"]):
+        for frame in ("hash256", "sha256"):
+            head = payload(ALL[name], rng.choice([0, 3, 255]), bytes(rng.getrandbits(8) for _ in range(4)),
+                           rng.choice([0, 7, 2 ** 31 + 7]), bytes(rng.getrandbits(8) for _ in range(32)),
+                           b"\x00" + bytes(rng.getrandbits(8) for _ in range(28)))
+            tail = (dsha(head) if frame == "hash256" else hashlib.sha256(head).digest())[:4]
+            pl = head + tail
+            if not 0 < int.from_bytes(pl[46:], "big") < N:
+                continue
+            tn = "1" if name in VERS_TEST else "0"
+            yield "xk_parse P %s b %s" % (tn, hx(pl)), "payload-is-checksum-frame"
+            yield "xk_parse P %s s %s" % (tn, sx(b58check_enc(pl))), "payload-is-checksum-frame"
+            yield "xk_parse P %s io %s" % (tn, hx(pl)), "payload-is-checksum-frame"
+            yield "wallet xkey:%s" % sx(b58check_enc(pl)), "payload-is-checksum-frame-wallet"
     # extended keys whose Base58Check TEXT has an interior, aligned block of the zero digit '1' (the chain code is
     # solved for it, common.solve_zero_block): block-wise / padded encoders lose or invent such digits
     for name in (["xpub", "tprv", "zpub"] if tier == "quick" else list(ALL)):
